@@ -10,6 +10,7 @@ import os
 from vf import gen
 
 WORDS = [b"alpha", b"beta", b"gamma", b"delta", b"eps", b"zeta", b"eta", b"theta"]
+SYMLINK_TARGETS = ["nowhere", "../x", "tgt-a", "tgt b", "dir/é"]
 COMMON = [b"\n", b"}\n", b"    return\n", b"# --\n", b"end\n", b"{\n"]
 
 _n = [0]
@@ -110,8 +111,9 @@ def build_base(rng, wt, names):
         r = rng.random()
         ap = os.path.join(base, rel)
         if r < 0.08:
-            # never a link to itself: os.stat() on a symlink loop raises ELOOP inside TreeTransform._set_mode (not this property)
-            os.symlink(rng.choice([t for t in ["f1", "../x", "nowhere", "d1"] if t != fn[i]]), ap)
+            # targets outside the namespace, so links can never form a loop: os.stat() on a symlink loop raises ELOOP inside
+            # TreeTransform._set_mode (seen with a link to itself; a transform defect, not this property)
+            os.symlink(rng.choice(SYMLINK_TARGETS), ap)
         else:
             if r < 0.14:
                 data = b"bin\x00\x01" + _uniq(b"B") + b"\n" + b"".join(long_lines(rng, 3))
@@ -176,7 +178,7 @@ def pending(rng, wt, names, nops, log):
             sl = _files(w, "symlink")
             if sl:
                 p = rng.choice(sl)
-                ops = [{"op": "kindchange", "path": p, "kind": "symlink", "content": rng.choice(["t1", "../t2", "f2", "été"])}]
+                ops = [{"op": "kindchange", "path": p, "kind": "symlink", "content": rng.choice(["t1", "../t2", "tgt c", "été-t"])}]
         elif r < 0.37:  # replace: rm a; mv b a
             fl = _files(w)
             if len(fl) >= 2:
@@ -207,8 +209,8 @@ def pending(rng, wt, names, nops, log):
                 continue
             if op["op"] == "mkfile" and rng.random() < 0.5:
                 op["content"] = flavour(rng, long_lines(rng))
-            if op["op"] == "symlink" and op["target"] == op["path"].rpartition("/")[2]:
-                op["target"] = "nowhere"  # no self-referencing links (see build_base)
+            if op["op"] == "symlink":
+                op["target"] = rng.choice(SYMLINK_TARGETS)  # never a loop (see build_base)
             ops = [op]
         for op in ops:
             if real(op) is None:
